@@ -130,6 +130,8 @@ func runC19(c *Ctx) {
 	checkExcludeScope(c, "R19h")
 	c.Rule("R19m", ruleTextConfigComplete, 1)
 	checkConfigComplete(c, "R19m")
+	c.Rule("R19o", ruleTextConfigSameType, 1)
+	checkConfigSameType(c, "R19o")
 	c.Rule("R19n", ruleTextDiffOptsForwarded, 4)
 	checkDiffOptsForwarded(c, "R19n")
 	c.Rule("R19k", ruleTextExtendReturns, 1)
